@@ -56,10 +56,12 @@ class Extract:
             # loops of the function itself and of the helpers it calls (e.g. an extracted `xor_chunk`)
             if eng.mute or (frame.key != fn["key"] and frame.ctxname.split(" > ")[0] != fn["name"]):
                 return
+            ent_ = {}
             for (cell, kp), kind in havoc.items():
                 if kind == "int":
                     self.entry[eng.hsym(lid, cell, kp)] = eng._entry.get((lid, (cell, kp)))
-            self.loops.append({"havoc": dict(havoc), "head": head, "lid": lid, "done": H.ghost.get("loops_done", ()), "H": H, "back": [(b, b.events()[H.ntrace:]) for b in res["back"]], "exits": res["exit"]})
+                    ent_[eng.hsym(lid, cell, kp)] = eng._entry.get((lid, (cell, kp)))
+            self.loops.append({"entry": ent_, "havoc": dict(havoc), "head": head, "lid": lid, "done": H.ghost.get("loops_done", ()), "H": H, "back": [(b, b.events()[H.ntrace:]) for b in res["back"]], "exits": res["exit"]})
 
         def on_md5(st, site, did, d):
             self.md5s.append((st.fork(), did, d))
@@ -244,7 +246,10 @@ def coverage_semantic(eng, X, chain):
             und.append("block coverage of a chain loop (walk not understood)")
             continue
         B = k + 16
-        B0 = entry_value(X, B)
+        B0 = Lin.const(B.c)
+        for sym_, k_ in B.t.items():
+            e_ = lp.get("entry", {}).get(sym_)
+            B0 = B0 + (e_.scale(k_) if e_ is not None else Lin.sym(sym_).scale(k_))
         exits = [subst_heads(eng, lp, se, B) for se, _bb in lp.get("exits", [])]
         if not exits or any(e is None for e in exits):
             und.append("block coverage of a chain loop (exit state not understood)")
